@@ -18,6 +18,13 @@ import (
 //   redispatch  the first fetches answer NotLeaderForPartition: the child goes back to its dispatcher,
 //               which backs off, refreshes metadata and subscribes again (to broker 1 when there are two)
 //   leaderloss  after the first fetch the metadata has no leader: dispatch fails, error + retry loop
+//   siblings    2-3 partition consumers on one broker worker; partition 0 loses its leader and every
+//               re-dispatch fails (Metadata.Retry.Max = 0, 10 ms back-off) while the siblings keep being
+//               served; the close is injected on a healthy sibling (#1), then the other siblings, the
+//               leaderless one last. Events counted after the loss: the failed re-dispatches (metadata
+//               request, error report) and what the siblings receive - not the 5 ms fetch polls - so k
+//               counts failed re-dispatches. Exercises the worker's reference count: a worker that still
+//               has subscribers must not be shut down by the leaving child's repeated unref.
 //   slow        reader pauses, MaxProcessingTime 20 ms: the feeder's expiry path (abandoned subscription)
 //   oor         the broker answers OffsetOutOfRange: the partition consumer shuts itself down
 //
@@ -86,18 +93,25 @@ func timerGate(d time.Duration) <-chan struct{} {
 
 func (s *pcScript) handler(b *sarama.MockBroker) func(string, interface{}) interface{} {
 	return func(kind string, body interface{}) interface{} {
-		s.rc.request(b.BrokerID(), kind)
+		if kind == "FetchRequest" && atomic.LoadInt32(&s.lost) == 1 {
+			s.rc.requestQuiet(b.BrokerID(), kind) // periodic polls of the siblings: logged, not counted
+		} else {
+			s.rc.request(b.BrokerID(), kind)
+		}
 		switch kind {
 		case "MetadataRequest":
 			return s.metadata()
 		case "OffsetRequest":
 			return sarama.NewMockOffsetResponse(quietT{s.rc}).
 				SetOffset(topic, 0, sarama.OffsetOldest, 0).SetOffset(topic, 0, sarama.OffsetNewest, int64(s.nmsg)).
-				SetOffset(topic, 1, sarama.OffsetOldest, 0).SetOffset(topic, 1, sarama.OffsetNewest, int64(s.nmsg))
+				SetOffset(topic, 1, sarama.OffsetOldest, 0).SetOffset(topic, 1, sarama.OffsetNewest, int64(s.nmsg)).
+				SetOffset(topic, 2, sarama.OffsetOldest, 0).SetOffset(topic, 2, sarama.OffsetNewest, int64(s.nmsg))
 		case "FetchRequest":
 			req := body.(*sarama.FetchRequest)
 			n := atomic.AddInt32(&s.fetches, 1)
-			exhausted := sarama.VerifC12FetchOffset(req, topic, 0) >= int64(s.nmsg) || sarama.VerifC12FetchOffset(req, topic, 0) < 0
+			off0 := sarama.VerifC12FetchOffset(req, topic, 0)
+			exhausted := off0 >= int64(s.nmsg) || off0 < 0
+			has0 := off0 >= 0
 			switch s.spec.Scen {
 			case "midfetch":
 				if exhausted && atomic.CompareAndSwapInt32(&s.heldOnce, 0, 1) {
@@ -112,8 +126,8 @@ func (s *pcScript) handler(b *sarama.MockBroker) func(string, interface{}) inter
 					atomic.StoreInt32(&s.moved, 1)
 					return s.fetchAnswer(req, sarama.ErrNotLeaderForPartition)
 				}
-			case "leaderloss":
-				if exhausted {
+			case "leaderloss", "siblings":
+				if exhausted && has0 {
 					atomic.StoreInt32(&s.lost, 1)
 					return s.fetchAnswer(req, sarama.ErrNotLeaderForPartition)
 				}
@@ -278,6 +292,12 @@ func runPCons(spec Spec) Result {
 	cfg.ChannelBufferSize = spec.p("buf", 1)
 	cfg.Consumer.Return.Errors = spec.p("reterr", 1) == 1
 	pause := time.Duration(0)
+	first := 0
+	if spec.Scen == "siblings" {
+		cfg.Metadata.Retry.Max = 0
+		cfg.Consumer.Retry.Backoff = 10 * time.Millisecond
+		first = 1
+	}
 	if spec.Scen == "slow" {
 		cfg.Consumer.MaxProcessingTime = 15 * time.Millisecond
 		pause = 50 * time.Millisecond
@@ -305,16 +325,16 @@ func runPCons(spec Spec) Result {
 
 	var wg sync.WaitGroup
 	obs := make([][]string, parts)
-	// the partition consumer under test is #0; the other one is closed after it (documented order only
-	// requires all of them before the Consumer)
+	// the partition consumer under test is #first (0; a healthy sibling in "siblings"); the others are
+	// closed after it (documented order only requires all of them before the Consumer)
 	firstDone := make(chan struct{})
 	for i := range pcs {
 		i := i
 		wg.Add(1)
 		rc.guard(fmt.Sprintf("pc%d", i), func() {
 			defer wg.Done()
-			if i == 0 {
-				obs[0] = observePC(rc, pcs[0], rc.trig, spec.Sync, pause, "pc0")
+			if i == first {
+				obs[i] = observePC(rc, pcs[i], rc.trig, spec.Sync, pause, fmt.Sprintf("pc%d", i))
 				close(firstDone)
 			} else {
 				obs[i] = observePC(rc, pcs[i], firstDone, false, 0, fmt.Sprintf("pc%d", i))
